@@ -18,6 +18,7 @@
 import MW.Model.Api
 import MW.Model.ApiLedger
 import MW.Model.Ledger
+import MW.Model.Import
 namespace MW.Model.ApiFollow
 open MW MW.Model.Api MW.Model.Ledger
 
@@ -392,5 +393,110 @@ def blockClass (c : Ctx) (s : Store) (v : Vol) (b : Block) : String :=
 
 def recvClass (c : Ctx) (s : Store) (v : Vol) (tx : Tx) : String :=
   folClass (run prog (recvOracle c s v tx) folFuel recvTxTail (fun _ => 0))
+
+-- ------------------------------------------------------------------ the worker: asyncImport / asyncRemove
+
+/-- filterTxForImporting of the transaction `tx` found at `height`, for the importing keystore `w`: answered from the
+    node's chain and the keystore view (MW.Model.Import.filterTxForImporting reads nothing else) -/
+def impTxAnswer (n : Node) (own : Own) (w : Wid) (tx : Tx) (height : Nat) (f : String) (σ : State) : Option (List Nat) :=
+  let k := vg σ "fi.i"
+  let inp : Inp := tx.ins.getD k default
+  let prev := Import.fetchTxUntil n inp.tx height
+  let curOut : Option Out :=
+    if vg σ "fi.out" = 0 then (match prev with | some pt => pt.outs[inp.idx]? | none => none) else tx.outs[vg σ "fi.o"]?
+  let relIn : List Rel := if tx.cb then [] else
+    match tx.ins.zipIdx.mapM (Import.relIn1 n own w height) with
+    | .ok l => l.filterMap id
+    | .error _ => []
+  let relOut : List Rel := tx.outs.zipIdx.filterMap (Import.relOut1 own w)
+  match f with
+  | "txmgr.NewTxRecordFromMsgTx" => some [1, 0]
+  | "blockchain.IsCoinBaseTx(tx)" => some [b2n tx.cb]
+  | "len(tx.TxIn)" => some [tx.ins.length]
+  | "cache[txIn.PreviousOutPoint.Hash]" =>
+    let seen := (tx.ins.take k).any (fun j => j.tx = inp.tx)
+    match prev with
+    | some pt => if seen then some [1, pt.outs.length] else some [0, 0]
+    | none => some [0, 0]
+  | "w.chainFetcher.FetchLastTxUntilHeight" =>
+    match prev with
+    | some pt => some [1, 0, pt.outs.length]
+    | none => some [0, 0, 0]
+  | "consensus: input refers to an existing output" => some [inp.idx]
+  | "prevTx.TxOut[i]" => some [1]
+  | "utils.ParsePkScript" =>
+    match curOut with
+    | some o => if o.cls = .raw then some [0, E.unsupportedScript, 1] else some [1, 0, 0]
+    | none => some [0, E.other, 0]
+  | "importingAddrMgr.Address" =>
+    match curOut with
+    | some o => some [b2n (Import.mine own w o.addr).isSome]
+    | none => some [0]
+  | "len(tx.TxOut)" => some [tx.outs.length]
+  | "no relevant input or output" => some [b2n (relIn.isEmpty && relOut.isEmpty)]
+  | "rec.HasBindingIn && rec.HasBindingOut" => some [b2n (Import.lastBinding relIn && Import.lastBinding relOut)]
+  | _ => none
+
+/-- ONE batch of asyncImport for a wallet imported just now (cursor 0) on a follower that stands on the node's tip
+    (the harness delivers the tip first). WHAT IS SCANNED is answered from the node's chain and the keystore view
+    (MW.Model.Import.plan: the script-hash index; filterTxForImporting per indexed transaction); the reads and writes
+    of the wallet database (status, balance, AddRelevantTxForImporting, PutWalletStatus) are answered "no error": in
+    this phase of an api history the ledger model does not track the store. The outcome class is still compared with
+    the real worker step. -/
+def importOracle (n : Node) (own : Own) (w : Wid) : Oracle := fun f σ =>
+  let best := n.tipHeight
+  let items := Import.plan n (Import.managed own w) 1 best
+  let heights := (items.map (·.blk.height)).eraseDups
+  let at_ (j : Nat) : List Import.Item := items.filter (fun it => it.blk.height = heights.getD j 0)
+  let cur : Import.Item := (at_ (vg σ "ai.j")).getD (vg σ "ai.k") default
+  let top : Option (List Nat) :=
+    match f with
+    | "w.ksmgr.GetAddrManagerByAccountID" => some [1, 0]
+    | "len(mas)" => some [(Import.managed own w).length]
+    | "range mas" => some [1]
+    | "suspend()" => some [1]
+    | "w.syncStore.GetWalletStatus" => some [1, 0]
+    | "w.utxoStore.GrossBalance" => some [0]
+    | "stop > ws.SyncedHeight" => some [b2n (best > 0)]
+    | "fetcher.FetchBlockShaByHeight" => some [1, 0, 0]
+    | "w.syncStore.SyncedBlock" => some [1, 0]
+    | "*sha != synced.Hash" => some [0]
+    | "fetcher.FetchScriptHashRelatedTx" => some [1, 0]
+    | "len(result.Heights())" => some [heights.length]
+    | "len(txlocs)" => some [(at_ (vg σ "ai.j")).length]
+    | "fetcher.FetchBlockHeaderByHeight" => some [1, 0]
+    | "w.chainFetcher.FetchBlockLocByHeight" => some [1, 0]
+    | "!bytes.Equal(loc hash, block hash)" => some [0]
+    | "fetcher.FetchTxByLoc" => some [1, 0]
+    | "w.txStore.AddRelevantTxForImporting" => some [0]
+    | "height is older than MaxMemPoolExpire" => some [0]
+    | "w.utxoStore.UpdateMinedBalances" => some [0]
+    | "w.syncStore.PutWalletStatus" => some [0]
+    | "len(heightAdded)" => some [heights.length]
+    | "h.expiredMempool" => some [1]
+    | "h.expiredMempool[height] or a new map" => some [1]
+    | "len(added)" =>
+      some [((at_ (vg σ "ai.l")).filter (fun it =>
+        match Import.filterTxForImporting n w own it.tx it.blk.height with | .ok (some _) => true | _ => false)).length]
+    | _ => none
+  match top with
+  | some a => a
+  | none => (impTxAnswer n own w cur.tx cur.blk.height f σ).getD []
+
+def importClass (n : Node) (own : Own) (w : Wid) : String :=
+  folClass (run prog (importOracle n own w) folFuel (.invoke Fn.asyncImport) (fun _ => 0))
+
+/-- asyncRemove as the harness runs it (one round finishes: fewer than 20000 credits; no database error): the answers
+    are fixed, the outcome class is compared with the real worker -/
+def removeOracle : Oracle := fun f _ =>
+  match f with
+  | "w.ksmgr.GetAddrManagerByAccountID" => [1, 0]
+  | "removal rounds" => [1]
+  | "suspend()" => [1]
+  | "w.txStore.RemoveRelevantTx" => [0, 1]
+  | _ => [0]
+
+def removeClass : String :=
+  folClass (run prog removeOracle folFuel (.invoke Fn.asyncRemove) (fun _ => 0))
 
 end MW.Model.ApiFollow
